@@ -104,14 +104,20 @@ pub struct Cfg {
     pub noi: u32,
     /// max-message-size of links named "b" (links named "a" have none)
     pub mms_b: u64,
+    /// the peer's channel for the library's channel c is c + ch_off, its handle for handle h is h + h_off
+    pub ch_off: u16,
+    pub h_off: u32,
 }
-pub const CFGS: [Cfg; 3] = [
+pub const CFGS: [Cfg; 4] = [
     // link-split pieces fit a frame: pure link-level splitting on 'b' links, pure transport splitting on 'a'/'c'
-    Cfg { id: "plain", noi: 0, mms_b: 200 },
+    Cfg { id: "plain", noi: 0, mms_b: 200, ch_off: CH_OFF, h_off: H_OFF },
     // link-split pieces are themselves larger than a frame: both layers split one delivery
-    Cfg { id: "bigmms", noi: 0, mms_b: 600 },
+    Cfg { id: "bigmms", noi: 0, mms_b: 600, ch_off: CH_OFF, h_off: H_OFF },
     // delivery-ids start just below the wrap-around
-    Cfg { id: "wrap", noi: u32::MAX - 1, mms_b: 200 },
+    Cfg { id: "wrap", noi: u32::MAX - 1, mms_b: 200, ch_off: CH_OFF, h_off: H_OFF },
+    // the peer's numbers OVERLAP the library's (its channel/handle k is the library's k-1): a table indexed with
+    // the wrong side's number hits a live neighbour instead of nothing
+    Cfg { id: "shift1", noi: 0, mms_b: 200, ch_off: 1, h_off: 1 },
 ];
 
 fn link_name(n: u8) -> &'static str {
@@ -547,8 +553,8 @@ pub async fn scenario(cfg: Cfg, evs: Vec<Ev>) -> Obs {
     let mut obs = Obs::default();
     let (pipe, a, _b) = Pipe::new();
     let mut auto = Auto::default();
-    auto.channel_offset = CH_OFF;
-    auto.handle_offset = H_OFF;
+    auto.channel_offset = cfg.ch_off;
+    auto.handle_offset = cfg.h_off;
     auto.max_frame_size = MAX_FRAME;
     auto.channel_max = 2000; // the peer's own channel numbers (1000, 1001) must be <= what both sides announce
     auto.grant_credit = Some(100);
@@ -571,7 +577,7 @@ pub async fn scenario(cfg: Cfg, evs: Vec<Ev>) -> Obs {
         Err((e, answered)) => {
             if answered {
                 // the peer's begin did not reach the session its remote-channel designates
-                obs.fails.push((SIG_BEGIN_LOST.into(), format!("setup: Session::begin did not succeed ({e}) although the peer answered on its channel {} naming the library's channel: {:?}", CH_OFF, vlib::peer::trace_to_strings(&peer.trace)), usize::MAX));
+                obs.fails.push((SIG_BEGIN_LOST.into(), format!("setup: Session::begin did not succeed ({e}) although the peer answered on its channel {} naming the library's channel: {:?}", cfg.ch_off, vlib::peer::trace_to_strings(&peer.trace)), usize::MAX));
                 obs.trace = vlib::peer::trace_to_strings(&peer.trace);
             } else {
                 obs.machinery = Some(format!("cannot begin session 0: {e}"));
@@ -991,9 +997,9 @@ pub fn run(ctx: &Ctx) -> Outcome {
         .collect();
     // depth counted AFTER the setup (open + begin of session 0), i.e. the design's depth + 1
     let plan: Vec<(Cfg, usize, &str, &Vec<usize>)> = if ctx.quick() {
-        vec![(CFGS[0], 4, "full", &full), (CFGS[1], 4, "deep", &deep), (CFGS[2], 4, "deep", &deep)]
+        vec![(CFGS[0], 4, "full", &full), (CFGS[3], 4, "full", &full), (CFGS[1], 4, "deep", &deep), (CFGS[2], 4, "deep", &deep)]
     } else {
-        vec![(CFGS[0], 5, "full", &full), (CFGS[1], 5, "deep", &deep), (CFGS[2], 5, "deep", &deep), (CFGS[0], 6, "deep", &deep), (CFGS[1], 6, "deep", &deep), (CFGS[2], 6, "deep", &deep)]
+        vec![(CFGS[0], 5, "full", &full), (CFGS[3], 5, "full", &full), (CFGS[1], 5, "deep", &deep), (CFGS[2], 5, "deep", &deep), (CFGS[0], 6, "deep", &deep), (CFGS[1], 6, "deep", &deep), (CFGS[2], 6, "deep", &deep)]
     };
     // Part B first (scripted client against the real listener): it gets at most a quarter of the budget
     let lb = listener::run_part_b(ctx, (t0 + Duration::from_secs_f64(ctx.budget_s * 0.25)).min(deadline), &mut out);
